@@ -294,6 +294,8 @@ def scenarios(draw, prof=GENERAL):
                                   ('run-no-current-loop', 1))))
     if chance(draw, prof.p_rerun):
         top['rerun'] = True
+        if chance(draw, 50):
+            top['prelude'] = True   # re-wired between the two runs
         _force_abstract(top)        # a coroutine object cannot be awaited twice
     return assign_ids(top)
 
